@@ -216,4 +216,4 @@ def nontrivial(history, steps):
     return False
 
 
-run, replay, replay_finding = histcheck.module_api(sys.modules[__name__], 1000, 25000)
+run, replay, replay_finding = histcheck.module_api(sys.modules[__name__], 1000, 25000, fixed=True)
